@@ -133,7 +133,7 @@ FIELD_FAULTS = ["", "-1", "256", "65536", "1001", "x", "1x", "0", "1", "*", "**"
 
 TCP_FIELD_FAULTS = {
     0: ["", "5", "44", "x", "4 ", "**", "4", "6", "*"],
-    1: ["", "0", "256", "64+192", "64+191", "255+1", "1+255", "0-", "256-", "-", "64+", "+64", "64+-1", "64-1", "x", "64+x", "1-", "255-", "255", "1", "1+0", "254+1"],
+    1: ["", "0", "256", "64+192", "64+191", "255+1", "1+255", "0-", "256-", "-", "64+", "+64", "64+-1", "64-1", "x", "64+x", "1-", "255-", "255", "1", "1+0", "254+1", "0+1", "0+64", "0+255", "00+128", "0+0", "0+256", "1+254", "1+255"],
     2: ["", "-1", "256", "255", "x", "*", "0"],
     3: ["", "-1", "65536", "65535", "x", "**", "0", "*"],
     6: ["foo", "DF", "df ", "df,,id+", ",df", "df,", "flow", "df", "0+", "id-", "id+", "bad,bad", "ecn,flow", "ts2+"],
